@@ -304,10 +304,10 @@ func TestC08(t *testing.T) {
 	sim.Main(t, &sim.Check{
 		ID:    "C08",
 		Level: "exploration",
-		Rule: "seeded histories with pending limit 1..8, initial height 1..50, all-empty / mixed / all-non-empty chains, DA outages of seeded finite length (timed out, already in mempool, too big, deadline, generic, sequence error) and partial acceptance, runs of the real submission loops; then an accepting DA and 4+limit rounds that must each commit a block. " +
+		Rule: "seeded histories with pending limit 1..8, initial height 1..50, all-empty / mixed / all-non-empty chains, DA outages of seeded finite length (timed out, already in mempool, too big, deadline, generic, sequence error) and partial acceptance, runs of the real submission loops; then an accepting DA and 4+limit rounds that must each commit a block. One scenario in twelve runs the real aggregation loop (lazy or normal mode) together with the real header and data submission loops as goroutines through a DA outage of 0-200 s and a recovery; afterwards the idle chain must grow by at least 5 blocks in 10 sustainable block periods (max of block/idle interval and DA block time / limit). " +
 			"distinct = distinct scenario hash; non-trivial = at least 3 blocks produced and at least one declined production or DA outage entry executed",
 		Assumptions: []string{"only outages are injected (no lost acknowledgements), so 'genuinely waiting' and 'not yet acknowledged' coincide", "the single sequencer always returns a batch, so an unchanged height without error means the node declined"},
-		Components:  map[string]string{"block.Manager.publishBlock (limit check)": "real", "pending headers/data": "real", "submission loops": "real", "sequencers/single": "real", "DA": "stub (SimDA)", "executor": "stub (SimExec)"},
+		Components:  map[string]string{"block.Manager.publishBlock (limit check)": "real", "pending headers/data": "real", "submission loops": "real", "block.Manager.AggregationLoop (lazy and normal; real-loops family)": "real", "sequencers/single": "real", "DA": "stub (SimDA)", "executor": "stub (SimExec)"},
 		Gen:         c08Gen,
 		Run:         c08Run,
 		CfgMin:      map[string]int64{"ih": 1, "limit": 1},
